@@ -434,11 +434,10 @@ def extractAmzDate (hs : List (Bytes × Bytes)) : Except ErrCode (Option AmzDate
     | some x => .ok (some x)
     | none => .error .InvalidRequest
 
-/-- payload-mode dispatch of `v4_check_header_auth` -/
+/-- payload-mode dispatch of `v4_check_header_auth`: the same for every method (the GET / HEAD branch that signed the
+    empty-string digest whatever the body is gone) -/
 def headerPayload (c : Ctx) (sha : Option ContentSha) : Except ErrCode Payload :=
   if sha = some .multipleChunks then .ok .multipleChunks
-  else if c.method = b!"GET" || c.method = b!"HEAD" then
-    .ok (if sha = some .unsignedPayload then .unsigned else .empty)
   else if sha = some .unsignedPayload then .ok .unsigned
   else match extractFullBody c with
     | .error e => .error e
